@@ -1,6 +1,6 @@
 //! C10 – restarting from persisted state is safe at every crash point.
 use crate::checks::c01::Ct;
-use crate::checks::c09::line_world;
+use crate::checks::c09::line_world_deferred;
 use crate::oracles::{chan_infos, ChanInfo, CommitmentOracle, PersistOrderOracle, RevocationOracle, TxValidityOracle};
 use crate::runner::{fill_model_checking_evidence, run_scenarios, Scenario};
 use crate::sys::{Deviations, Op, Oracle, WorldSys};
@@ -169,6 +169,8 @@ pub struct C10Scn {
 	pub k: u32,
 	pub crash_nodes: Vec<usize>,
 	pub async_from_start: Vec<usize>,
+	/// nodes whose ChainMonitor runs in deferred mode
+	pub deferred: Vec<usize>,
 }
 
 /// A = B (two parallel channels 0 and 1), B – C (2), B – D (3): a forwarder with two channels to the
@@ -197,7 +199,7 @@ fn fork_world(ct: Ct, intercept: bool) -> (World, Vec<ChannelId>) {
 }
 
 pub fn build(s: &C10Scn) -> WorldSys {
-	let (w, chans) = if s.name.contains("-fork-") { fork_world(s.ct, s.name.contains("intercept")) } else { line_world(s.ct, s.nodes, &s.async_from_start) };
+	let (w, chans) = if s.name.contains("-fork-") { fork_world(s.ct, s.name.contains("intercept")) } else { line_world_deferred(s.ct, s.nodes, &s.async_from_start, &s.deferred) };
 	let infos = chan_infos(&w, &chans);
 	let po = PersistOrderOracle::new(&w, infos.clone());
 	let rev = RevocationOracle::new(&w, infos.clone());
@@ -248,6 +250,7 @@ pub fn scenarios(tier: Tier) -> Vec<C10Scn> {
 				k: if th { 2 } else { 1 },
 				crash_nodes: vec![0, 1],
 				async_from_start: vec![],
+				deferred: vec![],
 			});
 			v.push(C10Scn {
 				name: format!("{}-abc-{}", n, pn),
@@ -258,6 +261,7 @@ pub fn scenarios(tier: Tier) -> Vec<C10Scn> {
 				k: if th { 2 } else { 1 },
 				crash_nodes: vec![0, 1, 2],
 				async_from_start: vec![],
+				deferred: vec![],
 			});
 		}
 		// "however far that manager lags behind the monitors": the manager stops being written at any
@@ -286,6 +290,7 @@ pub fn scenarios(tier: Tier) -> Vec<C10Scn> {
 					k: 2,
 					crash_nodes: vec![who],
 					async_from_start: vec![],
+					deferred: vec![],
 				});
 			}
 		}
@@ -317,6 +322,7 @@ pub fn scenarios(tier: Tier) -> Vec<C10Scn> {
 				k: 2,
 				crash_nodes: vec![0],
 				async_from_start: vec![],
+				deferred: vec![],
 			});
 		}
 		// a forwarder with two channels to the same upstream peer: an HTLC from the first is stuck in a
@@ -335,6 +341,7 @@ pub fn scenarios(tier: Tier) -> Vec<C10Scn> {
 			k: 1,
 			crash_nodes: vec![1],
 			async_from_start: vec![],
+			deferred: vec![],
 		});
 		// the same with B acting as an intercepting LSP that skims a fee (its clients accept underpaying HTLCs):
 		// the second payment waits as HTLCIntercepted / PaymentClaimable while B or the recipient D crashes at any
@@ -354,6 +361,48 @@ pub fn scenarios(tier: Tier) -> Vec<C10Scn> {
 			k: 1,
 			crash_nodes: vec![1, 3],
 			async_from_start: vec![],
+			deferred: vec![],
+		});
+		// deferred ChainMonitor mode: the background task writes the manager, then flushes the queued monitor
+		// operations; the node dies at every point, including between the manager write and the first monitor
+		// write and between two monitor writes of one flush (crash inside, before / after the k-th Persist call)
+		for (pol, pn) in [(ClaimPolicy::Claim, "claim"), (ClaimPolicy::Fail, "fail")] {
+			if !th && pn == "fail" {
+				continue;
+			}
+			v.push(C10Scn {
+				name: format!("{}-abc-{}-deferred", n, pn),
+				ct,
+				nodes: 3,
+				ops: vec![Op::Send { from: 0, hops: vec![(1, 0), (2, 1)], amount_msat: 50_000_000, policy: pol.clone() }],
+				dev: crashdev.clone(),
+				k: if th { 2 } else { 1 },
+				crash_nodes: vec![0, 1, 2],
+				async_from_start: vec![],
+				deferred: vec![0, 1, 2],
+			});
+		}
+		// ... and with the background task stalled from any point on (operations pile up unflushed, the manager
+		// is not written) and the node dying at any later point
+		v.push(C10Scn {
+			name: format!("{}-abc-claim-deferred-stalled-b", n),
+			ct,
+			nodes: 3,
+			ops: vec![Op::Send { from: 0, hops: vec![(1, 0), (2, 1)], amount_msat: 50_000_000, policy: ClaimPolicy::Claim }],
+			dev: Deviations {
+				reorder: None,
+				early_op: None,
+				crash: Some(1),
+				crash_inside: None,
+				complete_reorder: None,
+				hold_manager: Some(1),
+				early_release: if th { Some(1) } else { None },
+				..Deviations::default()
+			},
+			k: if th { 3 } else { 2 },
+			crash_nodes: vec![1],
+			async_from_start: vec![],
+			deferred: vec![1],
 		});
 		// asynchronous writes in flight at the crash: every candidate snapshot
 		v.push(C10Scn {
@@ -365,6 +414,7 @@ pub fn scenarios(tier: Tier) -> Vec<C10Scn> {
 			k: 1,
 			crash_nodes: vec![1],
 			async_from_start: vec![1],
+			deferred: vec![],
 		});
 	}
 	v
